@@ -4,7 +4,7 @@
 (* fields.  State <<slot, sign, zeros, base, delta>> built level by level  *)
 (* (so that TLC's workers share the fan-out):                              *)
 (*   slot   a numeric keyword with a unit suffix ("" = default unit)       *)
-(*   sign   "", "+", "-"        zeros  0, 1 or 5 leading zeros             *)
+(*   sign   "", "+", "-"        zeros  0, 1, 5, 11 or 21 leading zeros     *)
 (*   base   0, 1, 2^31, 2^32, 2^63, 2^64, floor(2^64/unit) for every unit, *)
 (*          a 40-digit number, and VERIF_SEED-derived random values        *)
 (*   delta  -1, 0, +1                                                      *)
@@ -44,7 +44,9 @@ EmitBetween ==
       \A tail \in {Cp("5"), Cp("05h"), Cp("5k"), Cp("000")} :
         LET txt == BetweenKws[k] \o <<cSP>> \o Signs[sg] \o Cp("1") \o <<c>> \o tail
         IN PrintT(ToJson([i |-> txt, e |-> ParseText(txt), tag |-> "C07"]))
-Zeros == << <<>>, <<c0>>, <<c0, c0, c0, c0, c0>> >>
+Z5 == <<c0, c0, c0, c0, c0>>
+\* (11 and 21 zeros: with them EVERY numeral is wider than a u32 resp. u64 can be, whatever its value; seed C05-i)
+Zeros == << <<>>, <<c0>>, Z5, Z5 \o Z5 \o <<c0>>, Z5 \o Z5 \o Z5 \o Z5 \o <<c0>> >>
 
 \* pseudo-random 64-bit-ish values from the seed (linear congruential on BigNat, deterministic)
 RECURSIVE RandB(_, _)
@@ -81,7 +83,7 @@ Init == vSeq = <<>>
 Next ==
   \/ Len(vSeq) = 0 /\ \E s \in 1..Len(Slots) : vSeq' = <<s>>
   \/ Len(vSeq) = 1 /\ \E b \in 1..NBase : vSeq' = Append(vSeq, b)
-  \/ Len(vSeq) = 2 /\ \E sg \in 1..3, z \in 1..3, d \in {0, 1, 2} : vSeq' = vSeq \o <<sg, z, d>>
+  \/ Len(vSeq) = 2 /\ \E sg \in 1..3, z \in 1..Len(Zeros), d \in {0, 1, 2} : vSeq' = vSeq \o <<sg, z, d>>
 
 Number ==
   LET b == BaseVal(vSeq[2])
